@@ -76,6 +76,7 @@ type vbSCFetch struct {
 type vbSCDel struct {
 	which      int
 	start, end int
+	traceEnd   int // length of the scheduler trace when the hasher returned
 	sumErr     string
 	target     bool  // Sum returned the requested CID
 	handedTo   []int // Fetch indices that wanted the CID when the block was published
@@ -137,7 +138,7 @@ func vbSCRun(t *testing.T, sc vbSCScenario, ws [2]*vbWorld, e *vx.Exec, keepTrac
 		defer func() { r.leaked = recover() }()
 		synctest.Test(t, func(*testing.T) {
 			s := vsched.New(e.ChooseCost)
-			s.KeepTrace = keepTrace
+			s.KeepTrace = true // the verdict reads the order of registry operations from the trace
 			s.MaxSteps = 600
 			var mu sync.Mutex // harness-side table of subscriptions (a real mutex, never held across a park)
 			for i, h := range sc.Headers {
@@ -189,6 +190,7 @@ func vbSCRun(t *testing.T, sc vbSCScenario, ws [2]*vbWorld, e *vx.Exec, keepTrac
 						c, err = own.Sum(payload[d.which]) // scheduling points: registry lookup, entry lock
 					}()
 					d.end = s.Steps
+					d.traceEnd = len(s.Trace)
 					if err != nil {
 						d.sumErr = err.Error()
 					}
@@ -328,10 +330,39 @@ func vbSCRun(t *testing.T, sc vbSCScenario, ws [2]*vbWorld, e *vx.Exec, keepTrac
 			}
 		}
 	}
-	for k, d := range dels {
-		if !d.target && len(d.waiting) > 0 {
-			fail("C10/conc/honest-rejected", "Fetch call(s) %v with the matching header subscribed before delivery %d started and still wait for %s, but the block the serving node produced is rejected: %s", d.waiting, k, sc.Target, d.sumErr)
+	// registration order = order of each Fetch thread's first registry operation
+	firstReg := map[int]int{}
+	for ti, ev := range r.trace {
+		var i int
+		if n, _ := fmt.Sscanf(ev, "F%d:Map.", &i); n == 1 && strings.Contains(ev, ":Map.") {
+			if _, ok := firstReg[i]; !ok {
+				firstReg[i] = ti
+			}
 		}
+	}
+	for k, d := range dels {
+		if d.target || len(d.waiting) == 0 {
+			continue
+		}
+		// the recorded mechanism: a Fetch that registered EARLIER has left and its deferred Delete took the
+		// shared entry with it (or the only registered verifier belongs to a Fetch with another header).
+		// An empty registry while no earlier registrant has left is a different mechanism.
+		for _, w := range d.waiting {
+			earlierLeft := false
+			for j := range fetches {
+				if fr, ok := firstReg[j]; ok && j != w && fr < firstReg[w] {
+					for ti := 0; ti < d.traceEnd && ti < len(r.trace); ti++ {
+						if strings.HasPrefix(r.trace[ti], fmt.Sprintf("F%d:Map.Delete", j)) {
+							earlierLeft = true
+						}
+					}
+				}
+			}
+			if strings.Contains(d.sumErr, "no unmarshallers registered") && !earlierLeft {
+				fail("C10/sc/honest-rejected/entry-removed-by-later-fetch", "Fetch #%d registered before every Fetch that has left so far, subscribed before delivery %d started and still waits for %s, but the registry is empty and the honest block is rejected: %s", w, k, sc.Target, d.sumErr)
+			}
+		}
+		fail("C10/conc/honest-rejected", "Fetch call(s) %v with the matching header subscribed before delivery %d started and still wait for %s, but the block the serving node produced is rejected: %s", d.waiting, k, sc.Target, d.sumErr)
 	}
 	return r
 }
